@@ -1,0 +1,66 @@
+//go:build verif
+
+package internal
+
+// Contracts for buffer.go (property C08: the lossy read buffer never invents, never delivers twice, never
+// wedges). The buffer is verified as a SEQUENTIAL object: each Add / Free call is taken as atomic (atomic
+// loads read the modelled state). Interleavings of individual atomic operations of concurrent Adds are
+// outside the reach of this technique and are not claimed.
+
+func sp_pb[K comparable, V any](b *Buffer[K, V]) *PolicyBuffers[K, V] {
+	return (*PolicyBuffers[K, V])(b.policyBuffers)
+}
+
+// structural invariant of a stripe
+func sp_bufInv[K comparable, V any](b *Buffer[K, V]) bool {
+	return b.policyBuffers != nil && (b.returned == b.policyBuffers || b.returned == nil) &&
+		b.tail.Load()-b.head.Load() <= 16 &&
+		len(sp_pb(b).Returned) >= 0 && len(sp_pb(b).Returned) <= 16 &&
+		imp(b.returned == b.policyBuffers, len(sp_pb(b).Returned) == 0)
+}
+
+// a full stripe always has a drainer: when the batch token is free the stripe is not full
+// (otherwise no later Add can ever take the token again: Add gives up on a full stripe)
+func sp_notWedged[K comparable, V any](b *Buffer[K, V]) bool {
+	return imp(b.returned == b.policyBuffers, b.tail.Load()-b.head.Load() < 16)
+}
+
+func (b *Buffer[K, V]) spec_Add(n ReadBufItem[K, V]) (pb *PolicyBuffers[K, V]) {
+	flag("atomics_stable")
+	requires("inv", sp_bufInv(b))
+	ensures("inv", sp_bufInv(b))
+	// a batch is handed out only to the Add that filled the stripe and took the token; it then holds what was
+	// in the 16 slots (at most 16 items), the slots are cleared and the stripe is empty again
+	ensures("batch", imp(pb != nil, pb == sp_pb(b) && b.returned == nil && old(b.returned) == b.policyBuffers &&
+		b.head.Load() == b.tail.Load() && b.tail.Load() == old(b.tail.Load())+1 && len(pb.Returned) <= 16))
+	ensures("cleared", imp(pb != nil, all(func(j uint) bool { return imp(j < 16, b.buffer[j] == nil) })))
+	// without a batch at most one slot is claimed and nothing is delivered
+	ensures("no_batch", imp(pb == nil, b.head.Load() == old(b.head.Load()) && (b.tail.Load() == old(b.tail.Load()) || b.tail.Load() == old(b.tail.Load())+1) &&
+		len(sp_pb(b).Returned) == old(len(sp_pb(b).Returned))))
+	ensures("not_wedged", imp(old(sp_notWedged(b)), sp_notWedged(b)))
+	return
+}
+
+func (b *Buffer[K, V]) spec_Add_loop1(i int, head uint64, pb *PolicyBuffers[K, V]) {
+	invariant("progress", i >= 0 && i <= 16 && head == old(b.head.Load())+uint64(i) && pb == sp_pb(b) && b.returned == nil &&
+		b.policyBuffers == old(b.policyBuffers) && b.tail.Load() == old(b.tail.Load())+1 && b.head.Load() == old(b.head.Load()))
+	invariant("batch_size", len(pb.Returned) >= 0 && len(pb.Returned) <= i)
+	invariant("cleared_prefix", all(func(j uint64) bool { return imp(j < uint64(i), b.buffer[(old(b.head.Load())+j)&15] == nil) }))
+	decreases(16 - i)
+}
+
+// hand the batch back: the buffer is emptied and the token becomes available again
+func (b *Buffer[K, V]) spec_Free() {
+	flag("atomics_stable")
+	requires("inv", sp_bufInv(b) && b.returned == nil)
+	ensures("inv", sp_bufInv(b))
+	ensures("token_free", b.returned == b.policyBuffers && len(sp_pb(b).Returned) == 0)
+	// C08 "never wedges": handing the token back must not leave a full stripe without a drainer
+	ensures("not_wedged", sp_notWedged(b))
+}
+
+func (b *Buffer[K, V]) spec_Free_loop1(i int, pb *PolicyBuffers[K, V]) {
+	invariant("shape", i >= 0 && pb == sp_pb(b) && len(pb.Returned) == old(len(sp_pb(b).Returned)) && b.returned == nil && b.policyBuffers == old(b.policyBuffers) &&
+		b.head.Load() == old(b.head.Load()) && b.tail.Load() == old(b.tail.Load()))
+	decreases(len(pb.Returned) - i)
+}
